@@ -1125,6 +1125,25 @@ impl<'a, 'b> Iterator for FindTextIter<'a, 'b> {
         }
     }
 }
+
+/// Translates a byte offset in the lowercased variant of a text to the byte offset in the text itself
+/// (lowercasing may change the length of a character in bytes). An offset inside the lowercased form
+/// of a character resolves to the begin of that character, or to its end if `roundup` is set.
+fn lowercase_to_original_bytepos(text: &str, lowerbytepos: usize, roundup: bool) -> usize {
+    let mut lowerpos = 0;
+    for (bytepos, c) in text.char_indices() {
+        if lowerpos >= lowerbytepos {
+            return bytepos;
+        }
+        let lowerlen: usize = c.to_lowercase().map(|c| c.len_utf8()).sum();
+        if lowerpos + lowerlen > lowerbytepos && !roundup {
+            return bytepos;
+        }
+        lowerpos += lowerlen;
+    }
+    text.len()
+}
+
 /// This iterator is produced by [`FindText::find_text_nocase()`] and searches a text for a single fragment, without regard for casing.
 /// It has more overhead than the exact (case sensitive) variant [`FindTextIter`].
 pub struct FindNoCaseTextIter<'a> {
@@ -1150,9 +1169,15 @@ impl<'a> Iterator for FindNoCaseTextIter<'a> {
                     let beginbytepos = resource
                         .subslice_utf8_offset(text)
                         .expect("bytepos must be valid");
-                    let text = text.to_lowercase();
-                    if let Some(foundbytepos) = text.find(self.fragment.as_str()) {
-                        let endbytepos = foundbytepos + self.fragment.len(); //MAYBE TODO: possible issue if uppercase and lowercase variants have different byte length!
+                    let lowertext = text.to_lowercase();
+                    if let Some(foundbytepos) = lowertext.find(self.fragment.as_str()) {
+                        //uppercase and lowercase variants may have different byte length, translate back to the text as it is
+                        let endbytepos = lowercase_to_original_bytepos(
+                            text,
+                            foundbytepos + self.fragment.len(),
+                            true,
+                        );
+                        let foundbytepos = lowercase_to_original_bytepos(text, foundbytepos, false);
                         let newbegin = resource
                             .utf8byte_to_charpos(beginbytepos + foundbytepos)
                             .expect("utf-8 byte must resolve to valid charpos");
